@@ -114,9 +114,13 @@ def order_family(perm, default_ns=False, two_files=False):
                                                                                        LocalElement(N("extra"), own(code)),
                                                                                        # ... and a member whose own name is what a
                                                                                        # numbered second `extra` might be called
-                                                                                       LocalElement(N("extra", "2"), TypeRef("int"), 0, 1)]),
-                                                       # an attribute called like one of the elements
-                                                       [Attr(N("extra"), TypeRef("string"), False)]), file=idx)
+                                                                                       LocalElement(N("extra", "2"), TypeRef("int"), 0, 1),
+                                                                                       # the same with a keyword: type, type_2 and an
+                                                                                       # attribute type (r#type_2 is the identifier type_2)
+                                                                                       LocalElement(Name(("type",), "snake"), TypeRef("string"), 0, 1),
+                                                                                       LocalElement(Name(("type", "2"), "snake"), TypeRef("int"), 0, 1)]),
+                                                       # attributes called like one of the elements
+                                                       [Attr(N("extra"), TypeRef("string"), False), Attr(Name(("type",), "snake"), TypeRef("string"), False)]), file=idx)
         comps = [code, node, node_el, derived, leaf, user, wrapper, date]
         f.components = [comps[i] for i in perm]
         return f
@@ -306,6 +310,29 @@ def xml_named_family():
         ElementRef(TypeRef(plain.name.xml, 1, plain), 0, 3)]), []), file=0)
     f0.components = [note, holder]
     return [("xml-named:references", SchemaSet([f0, f1], "f0.xsd", None, {"names-beginning-with-xml", "element-ref", "element-ref-foreign", "own-namespace-as-default"}))]
+
+
+def schema_prefix_abbreviation_family():
+    """The prefix a file binds to XML Schema (xsd, xs, s) is also what zeep abbreviates an imported namespace to (…/xsd, …/xs,
+    …/s), and that namespace has types called like built-in ones (date, language, int): `xsd:date` is the built-in type, whatever
+    the generated code calls the other namespace."""
+    out = []
+    for pfx in ("xsd", "xs", "s"):
+        f0 = _file(0, "http://zv.test/abbr/main", {0: "tns", 1: "ax"}, [1])
+        f0.xs_prefix = pfx
+        f1 = _file(1, f"http://zv.test/abbr/axis/{pfx}", {1: "ax"})
+        date = SimpleType(Name(("date",), "snake"), TypeRef("string"), Facets(enumeration=["today", "never"]), None, 1)
+        language = SimpleType(Name(("language",), "snake"), TypeRef("string"), Facets(max_length=2), None, 1)
+        int_t = ComplexType(Name(("int",), "snake"), Content(Group("sequence", 1, 1, [LocalElement(N("digits"), TypeRef("string"))]), []), file=1)
+        f1.components = [date, language, int_t]
+        holder = ComplexType(N("holder"), Content(Group("sequence", 1, 1, [
+            LocalElement(N("built", "in", "date"), TypeRef("date")), LocalElement(N("built", "in", "int"), TypeRef("int"), 0, 1),
+            LocalElement(N("built", "in", "language"), TypeRef("language"), 0, 1),
+            LocalElement(N("their", "date"), TypeRef(date.name.xml, 1, date), 0, 1), LocalElement(N("their", "int"), TypeRef(int_t.name.xml, 1, int_t), 0, 1),
+            LocalElement(N("their", "language"), TypeRef(language.name.xml, 1, language), 0, 1)]), []), file=0)
+        f0.components = [holder, GlobalElement(N("held"), type=TypeRef(holder.name.xml, 0, holder), file=0)]
+        out.append((f"schema-prefix-is-an-abbreviation:{pfx}", SchemaSet([f0, f1], "f0.xsd", None, {"schema-prefix-equals-a-namespace-abbreviation", "member-type-foreign", "type-named-like-builtin"})))
+    return out
 
 
 def _code(i):
